@@ -142,32 +142,33 @@ Definition ex_trace : list event :=
               EPushRefuse 1 9 1 false; EPullTake 2 false 1 None; EPullNone 2 false].
 
 Example ex_trace_runs : exists s, run 10 init ex_trace = Some s /\ closed s = true /\ items s = [] /\
-  length (accepted s) = 2%nat /\ length (returned s) = 2%nat /\ (forall i, In i (accepted s) -> isize i <= 10).
-Proof.
-  vm_compute. eexists. repeat split. intros i [<-|[<-|[]]]; vm_compute; discriminate.
-Qed.
+  length (accepted s) = 2%nat /\ length (returned s) = 2%nat /\ forallb (fun i => isize i <=? 10) (accepted s) = true.
+Proof. eexists. split; [vm_compute; reflexivity|]. vm_compute. repeat split. Qed.
 
 (* bounded's hypothesis is needed: push admits an oversize item when nothing is queued (cur = 11 > cap = 10) *)
 Example bounded_needs_each_item_fits : exists s, run 10 init [EPushAdmit 1 0 11 false None] = Some s /\ cur s = 11.
-Proof. vm_compute. eexists. split; reflexivity. Qed.
+Proof. eexists. split; [vm_compute; reflexivity|]. vm_compute. reflexivity. Qed.
 
 (* a closed state with a woken producer (3) and a woken consumer (2): the hypotheses of closed_nobody_blocked,
    closed_refuses, closed_drains_then_none (items <> []) are met *)
 Example ex_closed_with_woken : exists s, run 10 init (ex_open ++ [EClose 4]) = Some s /\ closed s = true /\
   kfull s = [(3, (7%Z, 6))] /\ kempty s = [2] /\ items s <> [] /\ idle s 1 = true /\ cur s + 6 < two64.
-Proof. vm_compute. eexists. repeat split; discriminate. Qed.
+Proof. eexists. split; [vm_compute; reflexivity|]. vm_compute. repeat split; discriminate. Qed.
 
 (* push_wait_nonempty / no_lost_wakeup: an open state with a blocked producer *)
 Example ex_blocked_producer : exists s s', run 10 init [EPushAdmit 1 5 6 false None] = Some s /\
   step 10 s (EPushWait 3 7 6 false) = Some s' /\ closed s' = false /\ wfull s' <> [].
-Proof. vm_compute. eexists. eexists. repeat split; discriminate. Qed.
+Proof.
+  eexists. eexists. split; [vm_compute; reflexivity|]. split; [vm_compute; reflexivity|].
+  vm_compute. repeat split; discriminate.
+Qed.
 
 (* priority with a tie: both items of priority 5 may be taken first, the one of priority 4 may not *)
 Example ex_tie : exists s, run 10 init [ETryAdmit 1 5 1 None; ETryAdmit 1 4 1 None; ETryAdmit 1 5 1 None] = Some s /\
   step 10 s (ETryTake 2 0 None) <> None /\ step 10 s (ETryTake 2 2 None) <> None /\ step 10 s (ETryTake 2 1 None) = None.
-Proof. vm_compute. eexists. repeat split; discriminate. Qed.
+Proof. eexists. split; [vm_compute; reflexivity|]. vm_compute. repeat split; discriminate. Qed.
 
 (* replay of a hook log: WE 2; A 1 0 6; KE 2; T 2 0 6; C 4; N 2 *)
 Example ex_replay : exists s, replay 10 (init, None) [LWE 2; LA 1 5 0 6; LKE 2; LT 2 0 6; LC 4; LN 2] = Some (s, None) /\
   quiescent (s, None) = true.
-Proof. vm_compute. eexists. split; reflexivity. Qed.
+Proof. eexists. split; [vm_compute; reflexivity|]. vm_compute. reflexivity. Qed.
